@@ -8,6 +8,7 @@ import Abnf.CompileTree
 import Abnf.Registry
 import Abnf.AcceptOn
 import Abnf.Obligations.Meta
+import Abnf.Norm
 namespace Abnf.Load
 open Abnf.CT Abnf.Registry
 
@@ -72,5 +73,10 @@ def loadIn (metaG : Grammar) (f : Nat) (σ : Reg CExpr) (cls : ClassId) (src : S
   | .gerr => (σ, .gerr)
   | .fail => (σ, .parseError)
   | .ok t _ => applyRules σ cls (kids t)
+
+/-- `cls.load_grammar(text)` (strict, the default) and the `load_grammar_rulelist` decorator: the text is normalised
+(`Norm.strictNorm`: trailing white space off, CR dropped, LF -> CRLF, final CRLF) and then loaded as is -/
+def loadStrictIn (metaG : Grammar) (f : Nat) (σ : Reg CExpr) (cls : ClassId) (text : Src) : Reg CExpr × Outcome :=
+  loadIn metaG f σ cls (Norm.strictNorm text)
 
 end Abnf.Load
